@@ -637,3 +637,205 @@ Section Sentences.
     destruct Hne as [c ->]; [discriminate|]. eexists; reflexivity.
   Qed.
 End Sentences.
+
+Section Sentences2.
+  Variable u : N -> list value -> cres.
+  Variable fuel : nat.
+  Notation sem := (Spec.sem u fuel).
+  Notation semv := (Spec.sem_valid u fuel).
+  Ltac unf := cbn [Spec.sem Spec.sem_valid]; fold sem; fold semv.
+
+  Lemma Forall2_imp {A B} (P Q : A -> B -> Prop) l l' :
+    (forall a b, P a b -> Q a b) -> Forall2 P l l' -> Forall2 Q l l'.
+  Proof. intros H. induction 1; constructor; auto. Qed.
+
+  Lemma first_err_none vs : Forall (fun v => deep_err v = None) vs -> first_err vs = None.
+  Proof.
+    induction 1 as [|v vs Hv _ IH]; [reflexivity|].
+    destruct v; cbn [first_err]; try exact IH. discriminate Hv.
+  Qed.
+
+  Lemma rmapM_ok {A B} (f : A -> res B) l bs :
+    Forall2 (fun a b => f a = Ok b) l bs -> rmapM f l = Ok bs.
+  Proof.
+    induction 1 as [|a b l bs Hab _ IH]; [reflexivity|].
+    cbn [rmapM]. rewrite Hab. cbn [rbind]. fold (rmapM f). rewrite IH. reflexivity.
+  Qed.
+
+  (** an element that evaluates to a value holding no deferred failure *)
+  Definition yields (o : dict) (e : expr) (v : value) : Prop := sem e o = Ok v /\ deep_err v = None.
+
+  (** Iter and the list / tuple collections: the elements' values, in order *)
+  Lemma iter_keeps_order es vs o :
+    Forall2 (yields o) es vs -> sem (EIter es) o = Ok (VT T_ITER vs).
+  Proof.
+    intros H. unf.
+    assert (E : (fix go (es : list expr) : res (list value) :=
+                   match es with
+                   | [] => Ok []
+                   | x :: es' => rcatch (v <~ sem x o ;;
+                                         if is_some (deep_err v) then Ok [v]
+                                         else vs <~ go es' ;; Ok (v :: vs))
+                                        (fun c _ => Ok [VErr c])
+                   end) es = Ok vs).
+    { induction H as [|e v es vs [He Hd] _ IH]; [reflexivity|].
+      rewrite He. cbn [rbind]. rewrite Hd. cbn [is_some]. rewrite IH. reflexivity. }
+    rewrite E. reflexivity.
+  Qed.
+
+  Lemma apply_spec src fn o :
+    sem (EApply src fn) o = as_ee (x <~ sem src o ;; f <~ sem fn o ;; scall_value u f x).
+  Proof. reflexivity. Qed.
+
+  Lemma list_keeps_order es vs o :
+    Forall2 (yields o) es vs -> sem (elist es) o = Ok (VT T_LIST vs).
+  Proof.
+    intros H. unfold elist. rewrite apply_spec, (iter_keeps_order es vs o H).
+    assert (F : first_err vs = None).
+    { apply first_err_none. clear -H. induction H as [|e v es vs [_ Hd] _ IH]; constructor; auto. }
+    cbn. rewrite F. reflexivity.
+  Qed.
+
+  Lemma tuple_keeps_order es vs o :
+    Forall2 (yields o) es vs -> sem (etuple es) o = Ok (VT T_TUPLE vs).
+  Proof.
+    intros H. unfold etuple. rewrite apply_spec, (iter_keeps_order es vs o H).
+    assert (F : first_err vs = None).
+    { apply first_err_none. clear -H. induction H as [|e v es vs [_ Hd] _ IH]; constructor; auto. }
+    cbn. rewrite F. reflexivity.
+  Qed.
+
+  (** Map: [out] lists one (assignment, result) pair per assignment of [rows], in order, the
+      result being the body's value under the caller's options overridden by the assignment *)
+  Inductive map_pairs (e : expr) (o : dict) : list (list (key * value)) -> list value -> Prop :=
+  | mp_nil : map_pairs e o [] []
+  | mp_cons row rows os r out :
+      srow_options row = Ok os -> sem e (mix o os) = Ok r -> deep_err r = None ->
+      map_pairs e o rows out ->
+      map_pairs e o (row :: rows) (VT T_TUPLE [row_dict row; r] :: out).
+
+  (** an iterable of the Map evaluates to a collection with the elements [vs] *)
+  Definition iterates (o : dict) (ke : key * expr) (vs : list value) : Prop :=
+    exists v, sem (snd ke) o = Ok v /\ sforce v = Ok vs.
+
+  Lemma map_cartesian_in_order e its o vals out :
+    Forall2 (iterates o) its vals ->
+    map_pairs e o (map (fun combo => combine (map fst its) combo) (product vals)) out ->
+    sem (EMap e its) o = Ok (VT T_ITER out).
+  Proof.
+    intros Hi Hp. unf.
+    assert (E1 : smap_rows (fun x => sem x o) its =
+                 Ok (map (fun combo => combine (map fst its) combo) (product vals))).
+    { unfold smap_rows. rewrite (rmapM_ok _ its vals); [reflexivity|].
+      eapply Forall2_imp; [|exact Hi]. intros ke vs (v & Hv & Hf). cbn beta. now rewrite Hv. }
+    rewrite E1. cbn [rbind]. clear E1 Hi.
+    induction Hp as [|row rows os r out Ho Hr Hd _ IH]; [reflexivity|].
+    cbn [rmapM]. rewrite Ho. cbn [rbind].
+    fold (rmapM (fun row => os <~ srow_options row ;; Ok (row, os))).
+    destruct (rmapM (fun row => os <~ srow_options row ;; Ok (row, os)) rows) as [rowsos|c ee];
+      [|discriminate IH].
+    cbn [rbind] in *. rewrite Hr. cbn [rbind]. rewrite Hd. cbn [is_some].
+    match goal with
+    | H : as_ee (rs <~ ?G ;; _) = _ |- _ => destruct G as [rs|c ee]; [|discriminate H]
+    end.
+    cbn [rbind as_ee rcatch] in *. now inversion IH.
+  Qed.
+
+  (** function application *)
+  Lemma apply_is_application src fn o x f :
+    sem src o = Ok x -> sem fn o = Ok f -> sem (EApply src fn) o = as_ee (scall_value u f x).
+  Proof. intros Hs Hf. rewrite apply_spec, Hs. cbn [rbind]. now rewrite Hf. Qed.
+
+  Lemma bind_is_application src tbl dflt o x b :
+    sem src o = Ok x -> assoc_v x tbl = Some b -> sem (EBind src tbl dflt) o = sem b o.
+  Proof.
+    intros Hs Hb. unf. rewrite Hs. cbn [rbind]. rewrite pick_assoc, Hb. apply sem_is_wrapped.
+  Qed.
+
+  Definition user_fn (f : N) : bool :=
+    negb (N.eqb f B_LIST || N.eqb f B_TUPLE || N.eqb f B_DICT || N.eqb f B_COMPOSE).
+
+  (** a function applied to its evaluated (keyword) arguments: what the user code returns for
+      them (seen with every lazily evaluated iterable forced), or its exception *)
+  Lemma call_is_application f kwargs vs o :
+    user_fn f = true -> Forall2 (fun e v => sem e o = Ok v) kwargs vs -> deep_err_list vs = None ->
+    sem (body f kwargs) o =
+      match u f (map listify vs) with COk v => Ok v | CRaise n => Err (CUser n) true end.
+  Proof.
+    intros Hu Hk Hd. unfold body. unf. cbn [rmapM rbind as_ee].
+    rewrite (rmapM_ok _ kwargs vs Hk). cbn [rbind scall_value_n app].
+    unfold user_fn in Hu. apply negb_true_iff in Hu.
+    apply orb_false_iff in Hu as [Hu H4]. apply orb_false_iff in Hu as [Hu H3].
+    apply orb_false_iff in Hu as [H1 H2].
+    rewrite H4. unfold scall_fun. rewrite H1, H2, H3, app_nil_r, Hd.
+    destruct (u f (map listify vs)); reflexivity.
+  Qed.
+
+  (** a dataset: its (overloaded, post-processed) body — with its effects unless they are
+      disabled — under (defaults overlaid by the caller's options) overlaid by its pre-set
+      options; cache and logging do not enter the value *)
+  Lemma dataset_spec d o :
+    sem (dataset_expr d) o =
+      sem (if d.(ds_effects_disabled)
+           then EApply (ESwitch d.(ds_dispatch) d.(ds_table) d.(ds_default)) d.(ds_callback)
+           else EComp (EApply (ESwitch d.(ds_dispatch) d.(ds_table) d.(ds_default)) d.(ds_callback)) d.(ds_effects))
+          (mix (mix d.(ds_default_options) o) d.(ds_options)).
+  Proof.
+    unfold dataset_expr.
+    set (b := if ds_effects_disabled d then _ else _).
+    change (sem (EWith false (ds_default_options d) (EWith true (ds_options d) (ECached (ds_cache d) (ELogged b)))) o)
+      with (as_ee (as_ee (as_ee (as_ee (sem b (mix (mix (ds_default_options d) o) (ds_options d))))))).
+    now rewrite !as_ee_idem, sem_is_wrapped.
+  Qed.
+
+  (** when no branch applies and there is no default, evaluation fails *)
+  Lemma switch_no_branch disp tbl o k :
+    sem disp o = Ok k -> hashable k = true -> assoc_v k tbl = None ->
+    sem (ESwitch disp tbl None) o = Err CSwitch true.
+  Proof. intros Hd Hh Ha. now rewrite switch_spec, Hd, Hh, Ha. Qed.
+
+  Lemma switch_no_dispatch_no_default disp tbl o c ee :
+    sem disp o = Err c ee -> sem (ESwitch disp tbl None) o = Err c true.
+  Proof. intros Hd. now rewrite switch_spec, Hd. Qed.
+
+  Lemma case_no_branch disp cases o x :
+    sem disp o = Ok x -> Forall (case_fails u fuel o x) cases ->
+    sem (ECase disp cases None) o = Err CCase true.
+  Proof. intros Hd Hc. now rewrite (case_no_match u fuel disp cases None o x Hd Hc). Qed.
+
+  (** the dict collection: [dict] of the (key, value) pairs in declaration order *)
+  Lemma dict_keeps_order (kvs : list (value * expr)) vs o :
+    Forall2 (fun kv v => yields o (snd kv) v /\ deep_err (fst kv) = None) kvs vs ->
+    sem (edict kvs) o =
+      match dict_of_pairs (map (fun p => VT T_ITER [fst (fst p); snd p]) (combine kvs vs)) [] with
+      | Some d => Ok (VT T_DICT d)
+      | None => Err CType true
+      end.
+  Proof.
+    intros H. unfold edict.
+    set (pairs := map (fun p => VT T_ITER [fst (fst p); snd p]) (combine kvs vs)).
+    assert (H1 : Forall2 (yields o) (map (fun kv => EIter [EValue (fst kv); snd kv]) kvs) pairs).
+    { subst pairs. induction H as [|[k e] v kvs vs [[He Hv] Hk] _ IH]; [constructor|].
+      cbn [map combine fst snd] in *. constructor; [|exact IH]. split.
+      - apply iter_keeps_order. repeat constructor; assumption.
+      - cbn [deep_err]. now rewrite Hk, Hv. }
+    assert (H2 : first_err pairs = None).
+    { subst pairs. clear. generalize (combine kvs vs) as l. induction l; [reflexivity|exact IHl]. }
+    assert (H3 : first_err (flat_map (fun p => match elements_of p with Some l => l | None => [] end) pairs) = None).
+    { subst pairs. clear -H. induction H as [|[k e] v kvs vs [[He Hv] Hk] _ IH]; [reflexivity|].
+      cbn [map combine fst snd flat_map] in *.
+      change (elements_of (VT T_ITER [k; v])) with (Some [k; v]). cbn [app first_err].
+      destruct k; try discriminate Hk; destruct v; try discriminate Hv; exact IH. }
+    rewrite apply_spec, (iter_keeps_order _ pairs o H1). cbn [rbind].
+    change (sem (EValue (VF B_DICT [] [])) o) with (@Ok value (VF B_DICT [] [])). cbn [rbind].
+    change (scall_value u (VF B_DICT [] []) (VT T_ITER pairs)) with
+      (ps <~ sforce (VT T_ITER pairs) ;;
+       match first_err (flat_map (fun p => match elements_of p with Some l => l | None => [] end) ps) with
+       | Some c => Err c true
+       | None => match dict_of_pairs ps [] with Some d => Ok (VT T_DICT d) | None => Err CType false end
+       end).
+    change (sforce (VT T_ITER pairs)) with
+      (match first_err pairs with Some c => @Err (list value) c true | None => Ok pairs end).
+    rewrite H2. cbn [rbind]. rewrite H3. destruct (dict_of_pairs pairs []); reflexivity.
+  Qed.
+End Sentences2.
